@@ -1,6 +1,6 @@
 #!/bin/bash
 # usage: seedmatrix.sh <seeddir>...  : for each seed, every check that alarms with its first diagnostic line
-export GOFLAGS=-mod=mod GOPROXY=off GOSUMDB=off GOTOOLCHAIN=local GOWORK=off
+export GOFLAGS="-mod=mod -trimpath" GOPROXY=off GOSUMDB=off GOTOOLCHAIN=local GOWORK=off
 for D in "$@"; do D=$(readlink -f "$D")
   S=$(mktemp -d /tmp/cvss-seed.XXXXXX)
   rsync -a --exclude .git /repo/ "$S/repo/"; mkdir -p "$S/verif/evidence"; cp /verif/known_findings.txt "$S/verif/"
